@@ -9,15 +9,16 @@ from . import val
 REG = {}          # property id -> [Obligation]
 
 class Obligation:
-    def __init__(self, prop, oid, fn, cls, funcs, cases, quick, use, canary, bound, domain, opaque, note, timeout, max_paths, finding):
+    def __init__(self, prop, oid, fn, cls, funcs, cases, quick, use, canary, bound, domain, opaque, note, timeout, max_paths, finding, tiers=None):
         self.prop = prop; self.oid = oid; self.fn = fn; self.cls = cls; self.funcs = tuple(funcs)
         self.cases = cases; self.quick = quick; self.use = use; self.canary = canary; self.bound = bound
         self.domain = domain; self.opaque = tuple(opaque or ()); self.note = note; self.timeout = timeout
-        self.max_paths = max_paths; self.finding = finding
+        self.max_paths = max_paths; self.finding = finding; self.tiers = tiers
         self.module = fn.__module__
 
     def instances(self, tier):
         """list of (instance id, case dict)"""
+        if self.tiers and tier not in self.tiers: return []
         cs = self.cases
         if cs is None: return [(self.oid, {})]
         if callable(cs): cs = cs(tier)
@@ -36,7 +37,7 @@ def _fmt(v):
     return str(v)
 
 def obligation(prop, oid, cls='L', funcs=(), cases=None, quick=None, use=None, canary=False, bound=None,
-               domain=None, opaque=None, note='', timeout=None, max_paths=None, finding=None):
+               domain=None, opaque=None, note='', timeout=None, max_paths=None, finding=None, tiers=None):
     """register an obligation.
     cls: 'L' lemma (loop free / concretely bounded, whole domain symbolic)   -- proved
          'I' inductive (loop invariant / fold step over unbounded input)     -- proved
@@ -49,7 +50,7 @@ def obligation(prop, oid, cls='L', funcs=(), cases=None, quick=None, use=None, c
     assert cls in ('L', 'I', 'E', 'B')
     def deco(fn):
         REG.setdefault(prop, []).append(Obligation(prop, oid, fn, cls, funcs, cases, quick, use, canary, bound, domain,
-                                                   opaque, note, timeout, max_paths, finding))
+                                                   opaque, note, timeout, max_paths, finding, tiers))
         return fn
     return deco
 
